@@ -107,7 +107,7 @@ def dask_reachable(prog, f, backend=None):
     return out
 
 
-def check_site(prog, rep, entry, site, np_funcs, kind):
+def check_site(prog, rep, entry, site, np_funcs, kind, np_path=None):
     f = site.scope
     text = norm(site.call)[:200]
     kern = site.kernel()
@@ -123,6 +123,42 @@ def check_site(prog, rep, entry, site, np_funcs, kind):
                 'the function mapped over blocks must be the very function the numpy path runs (numpy path reaches: %s)'
                 % sorted({g.qualname for g in np_funcs})[:8])
     pb, npos = site.partial_bindings()
+    if kind == SAME and any(kern is g for g in np_funcs) and not kern.vararg and not kern.kwarg:
+        # ---- H0-bind: the same parameters of the shared kernel receive a value on both paths (one left to its default on
+        # the dask path only - a keyword forgotten in map_blocks - silently computes with the default)
+        DASK_KW = {'meta', 'dtype', 'chunks', 'name', 'token', 'drop_axis', 'new_axis', 'depth', 'boundary', 'trim', 'align_arrays',
+                   'allow_rechunk', 'enforce_ndim', 'concatenate', 'block_id', 'block_info'}
+        free = [p_ for p_ in kern.params[npos:] if p_ not in pb]
+        dask_bound = set(kern.params[:npos]) | set(pb) | set(free[:len(site.arrays)]) | \
+            {k_ for k_ in site.kwargs if k_ not in DASK_KW and k_ in kern.params + kern.kwonly}
+        np_bound = None
+        for g in np_funcs:
+            if g is kern:
+                continue
+            for c in calls(g.node):
+                if c not in g.own_nodes() or any(isinstance(a_, ast.Starred) for a_ in c.args) or any(k_.arg is None for k_ in c.keywords):
+                    continue
+                t_ = prog.resolve_callable(g, g.module, c.func)
+                pre_ = set()
+                n0 = 0
+                while isinstance(t_, Partial):
+                    pre_ |= set(t_.keywords)
+                    n0 += len(t_.args)
+                    t_ = t_.target
+                if t_ is kern:
+                    b_ = set(kern.params[:n0 + len(c.args)]) | {k_.arg for k_ in c.keywords} | pre_
+                    np_bound = b_ if np_bound is None else (np_bound & b_)
+        if np_bound is None and np_path is not None and np_path.func() is kern and not any(isinstance(a_, ast.Starred) for a_ in np_path.args):
+            # the kernel is itself the numpy entry of the dispatch table: bound by the dispatch call
+            np_bound = set(kern.params[:len(np_path.args)]) | set(np_path.keywords)
+        if np_bound is not None:
+            allp = set(kern.params + kern.kwonly)
+            only_np = sorted((np_bound - dask_bound) & allp)
+            only_da = sorted((dask_bound - np_bound) & allp)
+            rep.add('H0-bind', f, entry, 'parameters of %s given a value: numpy path %s, dask path %s' % (
+                kern.qualname, sorted(np_bound & allp), sorted(dask_bound & allp)), site.call.lineno, not only_np and not only_da,
+                'both paths must hand the shared kernel the same parameters; left to the kernel\'s default on one path only: %s'
+                % (only_np + only_da))
     if site.kind == 'map_overlap':
         # ---- H2 boundary
         b = site.kwargs.get('boundary')
@@ -482,6 +518,86 @@ def check_pipe(prog, rep, entry, f_np, f_da):
                     'the per-block kernel of the dask pipeline must be the kernel the numpy pipeline calls')
 
 
+def check_pipe_args(prog, rep, entry, pub, f_np, f_da):
+    """H0-args (sibling pipelines): the arguments that reach a kernel shared by the numpy and the dask pipeline are the same
+    terms over the public parameters on both paths - up to the dask wrappers and the np / da namespaces.  The wrapper terms
+    are taken from the public function with the dispatch followed into either backend."""
+    from ..wterm import WT, key as tkey, show as tshow, unwrap_dask
+    np_only = dask_reachable(prog, f_np, 'numpy')
+    da_only = dask_reachable(prog, f_da, 'dask')
+    # the kernels of the dask pipeline's map_blocks / map_overlap sites that the numpy pipeline calls too
+    shared = []
+    for g in da_only:
+        if g.jit is not None:
+            continue
+        for site in expanded_sites(prog, g):
+            kern = site.kernel()
+            if kern is not None and not is_gpu(kern) and any(kern is h for h in np_only) and not any(kern is h for h in shared):
+                shared.append(kern)
+    if not shared:
+        return
+
+    def norm_ns(t):
+        if isinstance(t, tuple):
+            if len(t) >= 2 and t[0] == 'call' and isinstance(t[1], str) and t[1].startswith('dask.array.'):
+                t = ('call', 'numpy.' + t[1][len('dask.array.'):]) + tuple(t[2:])
+            if len(t) == 2 and t[0] == 'global' and isinstance(t[1], str) and t[1].startswith('da.'):
+                t = ('global', 'np.' + t[1][3:])
+            if len(t) == 3 and t[0] == 'attr' and t[2] == 'shape':
+                b_ = t[1]
+                while isinstance(b_, tuple) and b_ and b_[0] == 'cast':
+                    b_ = b_[1]          # a dtype conversion keeps the shape
+                t = ('attr', b_, 'shape')
+            return tuple(norm_ns(x) for x in t)
+        return t
+
+    def plain(t):
+        # arithmetic atoms carry their term as text: compare printed forms with the namespaces mapped
+        return tshow(norm_ns(unwrap_dask(t)), 100000).replace('dask.array.', 'numpy.').replace("'da.", "'np.")
+    got = {}
+    for be in ('numpy', 'dask'):
+        w = WT(prog, depth=6, backend=be, keep=shared)
+        w.noserial = True
+        try:
+            w.run(pub)
+        except Exception:      # noqa - the glue of a generator is outside what the term evaluator models
+            return
+        args = {}
+        partials = {}
+        for c in w.calls:
+            if any(c.callee is g for g in shared):
+                args.setdefault(c.callee.qualname, []).append(tuple(plain(a) for a in c.args))
+            nm = str(c.name)
+            if nm.endswith('partial') and c.args and c.args[0][0] == 'global':
+                partials[tkey(c.result)] = (c.args[0][1], c.args[1:])
+            if nm.endswith(('map_blocks', 'map_overlap')) and c.args:
+                fn = c.args[0]
+                extra = ()
+                if tkey(fn) in partials:
+                    fn, extra = ('global', partials[tkey(fn)][0]), tuple(partials[tkey(fn)][1])
+                if fn[0] in ('global', 'localfunc'):
+                    g = next((h for h in shared if h.name == fn[1] or h.qualname == fn[1]), None)
+                    if g is not None:
+                        args.setdefault(g.qualname, []).append(tuple(plain(a) for a in extra + tuple(c.args[1:])))
+        got[be] = args
+    for q in sorted(set(got['numpy']) & set(got['dask'])):
+        a, b = sorted(set(got['numpy'][q])), sorted(set(got['dask'][q]))
+        ok = a == b
+        diff = ''
+        if not ok:
+            for x, y in zip(a, b):
+                for i_, (u, v) in enumerate(zip(x, y)):
+                    if u != v:
+                        k_ = next((n_ for n_ in range(min(len(u), len(v))) if u[n_] != v[n_]), 0)
+                        diff = 'argument %d differs: numpy ...%s... / dask ...%s...' % (i_, u[max(0, k_ - 60):k_ + 60], v[max(0, k_ - 60):k_ + 60])
+                        break
+                if diff:
+                    break
+        rep.add('H0-args', f_da, entry, 'arguments of the shared kernel %s on the numpy and the dask pipeline' % q, f_da.node.lineno, ok,
+                'sibling pipelines must hand their shared kernel the same quantities (coordinate grids, ranges, permutation tables) '
+                'in the same roles; ' + diff)
+
+
 # ------------------------------------------------------------------------------------------- H6 generators
 def dtype_provenance(prog, f, lazy=False):
     """tiny flow-sensitive dtype provenance for generator paths: name -> 'IN' | 'FLOAT' | None.
@@ -596,10 +712,11 @@ def check(prog, rep):
                 'expected the dask path to evaluate the raster with %s' % prim)
         for s in sites:
             nsites += 1
-            check_site(prog, rep, entry, s, np_funcs, SAME if kind == SAME else kind)
+            check_site(prog, rep, entry, s, np_funcs, SAME if kind == SAME else kind, np_path=paths['numpy'])
         nred += check_H4(prog, rep, entry, f_da, ex_da, np_funcs)
         if kind == PIPE:
             check_pipe(prog, rep, entry, f_np, f_da)
+            check_pipe_args(prog, rep, entry, pub, f_np, f_da)
         if kind == MODULE:
             rep.add('H0', pub, entry, 'numpy path %s / dask path %s' % (f_np.qualname, f_da.qualname), pub.node.lineno,
                     f_np is f_da, 'module-parametrised op: both paths must run the same function')
